@@ -18,7 +18,7 @@ func init() {
 		Pkgs:      []string{"container/iterable"},
 		Run:       runC18,
 		Technique: "static analysis: path-sensitive typestate analysis by finite abstract interpretation of the go/ssa of Mixer.Init/HasNext/Next/Reset (abstract domain: constants for the control state, opaque tokens for elements; product with a per-source look-ahead automaton), exhaustive over the reachable abstract states",
-		Explanation: "The control state of the mixer (state byte and look-ahead flags, found by interpreting Init) is propagated through the SSA of HasNext, Next and Reset for every outcome of the environment calls (source HasNext/Next, selector, Reset support); elements are opaque tokens, so only the shape of a merge step is decided. On every reachable abstract state: " +
+		Explanation: "The control state of the mixer (state byte and look-ahead flags, found by interpreting Init) is propagated through the SSA of HasNext, Next and Reset for every outcome of the environment calls (source HasNext/Next - including a Next that answers (zero, false) after HasNext said true, which the Iterator contract allows when the last element was removed in between: nothing may be emitted for it -, selector, Reset support); elements are opaque tokens, so only the shape of a merge step is decided. On every reachable abstract state: " +
 			"T1 a source is asked for its next element only when its look-ahead is empty and it has just reported HasNext (no element lost or fetched twice); " +
 			"T2 Next emits exactly a pending look-ahead element of one source and clears that look-ahead; " +
 			"T3 with both look-aheads pending the selector is applied to (first head, second head) in this order and the first head is emitted iff it returned true; with one pending that one is emitted only after the other source reported exhaustion; (zero,false) is returned only when both are exhausted; " +
@@ -147,6 +147,14 @@ func runC18(c *Ctx) {
 				if !mm.has[k] {
 					fail("C18.T1", "source advanced only after HasNext", fmt.Sprintf("%s: Next() of source %d is called without a preceding HasNext()==true", curOp, k+1))
 					return ai.Tuple{Elems: []ai.Val{elemTok(k), ai.Bool(false)}}
+				}
+				// the Iterator contract allows HasNext()==true to be followed by Next()==(zero, false): the element was
+				// removed in between. Modelled for the case the contract names: it was the last one, the source
+				// is exhausted from here on, and nothing may be emitted for it
+				if !choose() {
+					mm.has[k] = false
+					mm.done[k] = true
+					return ai.Tuple{Elems: []ai.Val{ai.Const{}, ai.Bool(false)}}
 				}
 				mm.has[k] = false
 				mm.pend[k] = true
